@@ -683,22 +683,39 @@ impl Accu {
     }
 }
 
-static DEADLINE: std::sync::OnceLock<std::time::Instant> = std::sync::OnceLock::new();
+static START: std::sync::OnceLock<std::time::Instant> = std::sync::OnceLock::new();
+/// Deadline of the part that is running, in milliseconds since START (0 = none).
+static DEADLINE_MS: std::sync::atomic::AtomicU64 = std::sync::atomic::AtomicU64::new(0);
 static CAPPED: std::sync::atomic::AtomicBool = std::sync::atomic::AtomicBool::new(false);
 
-/// Wall-clock cap of the whole check (default: 50 s quick, 540 s thorough; VERIF_WALL_CAP_S
-/// overrides).  Hitting it is reported through `rep.not_exhaustive`.
-pub fn set_deadline(thorough: bool) {
-    let secs = std::env::var("VERIF_WALL_CAP_S").ok().and_then(|s| s.parse().ok()).unwrap_or(if thorough { 540u64 } else { 50 });
-    let _ = DEADLINE.set(std::time::Instant::now() + std::time::Duration::from_secs(secs));
+/// Wall-clock cap of the whole check (default 50 s quick, 540 s thorough; VERIF_WALL_CAP_S
+/// overrides).  Parts get cumulative shares of it: the part ending at share `upto` (0..1] must
+/// finish before start + cap * upto, so time a part does not use rolls over to the later ones.
+/// Hitting a deadline is reported through `rep.not_exhaustive`.
+pub fn set_deadline(thorough: bool, upto: f64) {
+    let start = *START.get_or_init(std::time::Instant::now);
+    let _ = start;
+    let secs = std::env::var("VERIF_WALL_CAP_S").ok().and_then(|s| s.parse().ok()).unwrap_or(if thorough { 540.0f64 } else { 50.0 });
+    DEADLINE_MS.store((secs * upto * 1000.0) as u64, Ordering::Relaxed);
 }
 pub fn past_deadline() -> bool {
-    match DEADLINE.get() {
-        Some(d) if std::time::Instant::now() > *d => {
-            CAPPED.store(true, Ordering::Relaxed);
-            true
-        }
-        _ => false,
+    let d = DEADLINE_MS.load(Ordering::Relaxed);
+    if d == 0 {
+        return false;
+    }
+    let now = START.get().map(|s| s.elapsed().as_millis() as u64).unwrap_or(0);
+    if now > d {
+        CAPPED.store(true, Ordering::Relaxed);
+        true
+    } else {
+        false
+    }
+}
+/// Development aid: VERIF_PARTS=a,b restricts a check to the named parts.
+pub fn part_selected(name: &str) -> bool {
+    match std::env::var("VERIF_PARTS") {
+        Ok(v) => v.split(',').any(|p| p == name),
+        Err(_) => true,
     }
 }
 pub fn report_cap(rep: &mut Report) {
